@@ -276,13 +276,23 @@ def _run_main(ctx):
         sd = rng.choice([0, 0, -1, 1, -2]); ed = rng.choice([-1, -1, 0, -2, 1])
         case = {"op": "corner_shape_flatten", "shape": sh, "start_dim": sd, "end_dim": ed}
         ctx.case(case); ctx.count("corner_shape_flatten")
+        as_lists = rng.random() < 0.5          # (an edge list whose entries are two-element lists is accepted like one of tuples)
+        case["edges_as_lists"] = as_lists
         try:
+            edges = [["in", "f"], ["f", "out"], ["f", "out"]] if as_lists else [("in", "f"), ("f", "out")]
             g = nir.NIRGraph(nodes={"in": nir.Input(np.array(sh, dtype=np.int64)), "f": nir.Flatten(None, sd, ed),
-                                    "out": nir.Output(None)}, edges=[("in", "f"), ("f", "out")])
+                                    "out": nir.Output(None)}, edges=edges)
+            ref = nir.NIRGraph(nodes={"in": nir.Input(np.array(sh, dtype=np.int64)), "f": nir.Flatten(None, sd, ed),
+                                      "out": nir.Output(None)}, edges=[("in", "f"), ("f", "out"), ("f", "out")])
         except Exception:
             ctx.count("construct_rejected"); continue
         try:
-            bounded_infer(g, seconds=5)
+            err = bounded_infer(g, seconds=5)
+            err_ref = bounded_infer(ref, seconds=5)
+            if as_lists and (err != err_ref or types_snapshot(g) != types_snapshot(ref)):
+                ctx.violate(case, "infer_types treats an edge list of two-element lists differently from the same edges as tuples",
+                            {"site": "infer_types", "what": "edge-container", "edit": "corner-shape"},
+                            observed={"lists": err, "tuples": err_ref})
         except Hang:
             ctx.violate(case, "infer_types did not terminate", {"site": "infer_types", "what": "hang", "edit": "corner-shape"})
     # depth: a single path far longer than any recursion limit
